@@ -404,10 +404,19 @@ class Ctx:
 
     def write_evidence(self, coverage, assumptions, level="proof"):
         os.makedirs(EVID, exist_ok=True)
+        coverage = dict(coverage)
+        coverage.setdefault("repo", repo_identity())
         ev = {"property_id": self.prop, "tier": self.tier, "seed": self.seed, "level": level,
               "coverage": coverage, "assumptions": assumptions,
               "wall_s": round(time.time() - self.t0, 2), "violations": len(self.violations)}
         json.dump(ev, open(os.path.join(EVID, self.prop + ".json"), "w"), indent=1)
+
+
+def repo_identity():
+    """which tree the evidence was produced from: path, HEAD commit, and whether the working tree has local edits"""
+    rc, head, _ = sh(["git", "-C", REPO, "rev-parse", "--short", "HEAD"])
+    rc2, st, _ = sh(["git", "-C", REPO, "status", "--porcelain", "--untracked-files=no"])
+    return {"path": REPO, "head": head.strip() if rc == 0 else None, "dirty": bool(st.strip()) if rc2 == 0 else None}
 
 
 def file_hash(path):
